@@ -604,6 +604,20 @@ class C16(core.Check):
                 o["scan_min"] = min(_dist(p, q["p"]) for p in scan)
             out["queries"].append(o)
         out["bounds"] = [float(lo), float(hi)]
+        if kind == "analytic" and case["curve"] == "helix":
+            # argument handling of discretize(): omitted parameters, an explicit 0, the bounds themselves, out of bounds
+            x = case["tq"][0]
+            variants = [[None, None], [None, x], [x, None], [float(lo), float(hi)], [float(hi) + 1.0, x], [x, float(lo) - 0.5]]
+            if lo <= 0.0 <= hi:
+                variants += [[0.0, x], [x, 0.0], [0.0, None]]
+            out["argcalls"] = []
+            for a, b in variants:
+                del record[:]
+                try:
+                    curve.discretize(a, b, case["count"])
+                    out["argcalls"].append({"a": a, "b": b, "recorded": list(record)})
+                except ValueError:
+                    out["argcalls"].append({"a": a, "b": b, "recorded": "ValueError"})
         return out
 
     def _run_tf(self, case: dict) -> Any:
@@ -766,6 +780,10 @@ class C16(core.Check):
         elif kind == "analytic" and case["curve"] == "helix":
             for (a, b), o in zip(case["pairs"], impl["pairs"]):
                 reqs.append(f"c16.linspace {core.rat(a)} {core.rat(b)} {case['count']}")
+            lo, hi = impl["bounds"]
+            opt = lambda v: "none" if v is None else core.rat(v)
+            for c in impl.get("argcalls", []):
+                reqs.append(f"c16.params {core.rat(lo)} {core.rat(hi)} {opt(c['a'])} {opt(c['b'])} {case['count']}")
         elif kind == "tf" and case["curve"] == "linear":
             for a, b in case["pairs"]:
                 reqs.append(f"c16.ilen {_vecs(impl['moved'])} {core.rat(a)} {core.rat(b)} {eps}")
@@ -842,6 +860,16 @@ class C16(core.Check):
                 rec = o["recorded"]
                 if len(rec) != len(want) or not max(abs(x - y) for x, y in zip(rec, want)) <= 1e-12 * max(1.0, abs(a), abs(b)):
                     return f"discretize({a}, {b}, {case['count']}) evaluates the curve at {rec[:3]}…, model linspace {want[:3]}…"
+            for c, ans in zip(impl.get("argcalls", []), model[len(case["pairs"]) :]):
+                call = f"discretize({c['a']}, {c['b']}, {case['count']}) with bounds {impl['bounds']}"
+                if ans == "reject" or c["recorded"] == "ValueError":
+                    if not (ans == "reject" and c["recorded"] == "ValueError"):
+                        return f"{call}: implementation {str(c['recorded'])[:60]}, model {ans[:60]}"
+                    continue
+                want = [float(core.parse_rat(x)) for x in ans.split()[3].strip("[]").split(",")]
+                rec = c["recorded"]
+                if len(rec) != len(want) or not max(abs(x - y) for x, y in zip(rec, want)) <= 1e-12 * max(1.0, *map(abs, impl["bounds"])):
+                    return f"{call} evaluates the curve at {rec[:2]}…{rec[-1:]}, model {want[:2]}…{want[-1:]}"
             return None
         if kind == "tf":
             it = iter(model)
